@@ -234,6 +234,25 @@ func faultList() []fault {
 			}
 		}
 	}
+	// COMPRESSED bodies: the 1 MiB body limit bounds the bytes on the wire; a service that inflates what a client
+	// declares as gzip / deflate must bound what comes out as well (half a GiB of blanks packs into half a MiB)
+	{
+		vb := bodyOf(validBody("/hotp/generate"))
+		head, tail := vb[:len(vb)-1], vb[len(vb)-1:]
+		for _, enc := range []string{"gzip", "deflate"} {
+			for _, blanks := range []int{0, 1 << 16, 512 << 20} {
+				for _, path := range []string{"/hotp/generate", "/ocra/validate"} {
+					q := rreq{Method: "POST", Path: path, Headers: map[string]string{"Content-Encoding": enc}, Packed: &packed{Encoding: enc, Head: head, Blanks: blanks, Tail: tail}}
+					out = append(out, fault{fmt.Sprintf("%s body declared and sent as %s, inflating to %d blanks inside the JSON object", path, enc, blanks), q, false})
+				}
+			}
+			// the declaration without the substance, and the substance without the declaration
+			q := rawReq("POST", "/hotp/generate", vb)
+			q.Headers = map[string]string{"Content-Encoding": enc}
+			out = append(out, fault{"plain body declared as " + enc, q, false})
+			out = append(out, fault{enc + " body without the declaration", rreq{Method: "POST", Path: "/hotp/generate", Packed: &packed{Encoding: enc, Head: head, Blanks: 1 << 16, Tail: tail}}, false})
+		}
+	}
 	// skew / period / counter / timestamp extremes in combination
 	u := ref.B32Encode(restKey)
 	for _, sk := range []string{"11", "255", "3000000", "4294967295", "4294967296", "9223372036854775807", "9223372036854775808", "18446744073709551615"} {
